@@ -18,11 +18,12 @@ use zipora::hash_map::{
 use zipora::memory::{SecureMemoryPool, SecurePoolConfig};
 
 const HEADER: &str = r#"From ZV.Common Require Import Base Run.
-From ZV.C06 Require Import Model ModelGold ModelEasy.
+From ZV.C06 Require Import Model ModelGold ModelEasy ModelIdx.
 Open Scope N_scope.
 (* kind 0: standard storage [hasher mode; initial capacity; has_final; final capacity] [final slot-order iteration]
    kind 1: stub storage; kind 2: SmallMap;
    kind 4: EasyHashMap [initial capacity; auto_grow; max_load_factor numerator; denominator]
+   kind 5: GoldHashIdx [requested capacity]
    kind 3: GoldHashMap [initial capacity; cache; gc; reuse; has_final; final bucket count; final deleted count]
                        [final entry-order iteration; hash table; max_load table] *)
 Definition case_t : Type := N * list N * list (list (N * N)) * list op * list obs.
@@ -38,6 +39,7 @@ Definition ok (c : case_t) : bool :=
           else let st := exec h st0 ops in eqb_kvs (iter st) (tb ts 0) && (alloc st =? pn ps 3))
   | 1 => eqb_obss (stub_run ops) expect
   | 2 => eqb_obss (sm_run (hasher 0) (Small []) ops) expect
+  | 5 => eqb_obss (irun (hasher 0) (iinit (pn ps 0)) ops) expect
   | 4 => let grow := fun l c => pn ps 2 * c <=? pn ps 3 * l in
          eqb_obss (easy_run (hasher 0) grow (negb (pn ps 1 =? 0)) (init (pn ps 0)) ops) expect
   | _ => let h := assoc (tb ts 1) 0 in
@@ -320,6 +322,7 @@ enum ModelDesc {
     Small,
     Gold { cap0: u64, cache: bool, gc: bool, reuse: bool, lf: f32, collide: u64 },
     Easy { cap: u64, auto: bool, num: u64, den: u64 },
+    Idx { cap: u64 },
 }
 struct Cell { name: String, status: &'static str, model: Option<ModelDesc>, stub: bool, map: Box<dyn Mut> }
 
@@ -359,7 +362,7 @@ fn make_cell(family: &str, variant: u64, aux: u64) -> Cell {
         "idx" => {
             let m = match variant { 0 => GoldHashIdx::new(), 1 => GoldHashIdx::with_capacity(1),
                 _ => GoldHashIdx::with_pool(16, SecureMemoryPool::new(SecurePoolConfig::small_secure()).expect("pool")) };
-            Cell { name: format!("GoldHashIdx/{}", ["new", "with_capacity1", "with_pool"][variant.min(2) as usize]), status: "S-only", model: None, stub: false, map: Box::new(Idx(m, aux)) }
+            Cell { name: format!("GoldHashIdx/{}", ["new", "with_capacity1", "with_pool"][variant.min(2) as usize]), status: "M+S", model: Some(ModelDesc::Idx { cap: [16u64, 1, 16][variant.min(2) as usize] }), stub: false, map: Box::new(Idx(m, aux)) }
         }
         "small_u8" => Cell { name: "SmallMap<u8>/get_fast".into(), status: "S-only", model: None, stub: false, map: Box::new(SmU8(SmallMap::new())) },
         "small" => Cell { name: "SmallMap".into(), status: "M+S", model: Some(ModelDesc::Small), stub: false, map: Box::new(Sm(SmallMap::new(), aux)) },
@@ -487,6 +490,7 @@ fn history(cx: &mut Ctx, family: &str, variant: u64, aux: u64, ops: &[(u64, u64,
                 },
                 ModelDesc::Stub => (1, vec![], vec![]),
                 ModelDesc::Small => (2, vec![], vec![]),
+                ModelDesc::Idx { cap } => (5, vec![cap], vec![]),
                 ModelDesc::Easy { cap, auto, num, den } => (4, vec![cap, auto as u64, num, den], vec![]),
                 ModelDesc::Gold { cap0, cache, gc, reuse, lf, collide } => {
                     let mut ks: Vec<u64> = ops[..n].iter().map(|o| o.1).collect(); ks.sort(); ks.dedup();
@@ -630,7 +634,7 @@ pub fn run(args: &Args) {
         history(&mut cx, "zip", 0, 9, ops, coq);
         history(&mut cx, "gold", 0, 2, ops, coq && n % (2 * stride) == 0);
         history(&mut cx, "gold", 3, 2, ops, false);
-        history(&mut cx, "idx", 0, 2, ops, false);
+        history(&mut cx, "idx", 0, 2, ops, coq && n % (2 * stride) == stride);
         history(&mut cx, "small", 0, 2, ops, false);
     }
     // SmallMap<u8>::get_fast: every fill level 0..=9 of the inline array, lookups of absent keys (0 and 255 included)
@@ -666,7 +670,7 @@ pub fn run(args: &Args) {
         let n = *rng.pick(&[0u64, 1, 16, 17, 24, 31, 33, 64, 100]);
         history(&mut cx, "zipcap", n, 0, &ops, room);
         for variant in 0..GOLD_VARIANTS { history(&mut cx, "gold", variant, rng.below(4), &ops, room && (variant + i) % 4 == 1 && ops.len() <= 120); }
-        for variant in 0..3 { history(&mut cx, "idx", variant, rng.below(4), &ops, false); }
+        for variant in 0..3 { history(&mut cx, "idx", variant, rng.below(4), &ops, room && (variant + i) % 3 == 0 && ops.len() <= 120); }
         history(&mut cx, "small", 0, rng.below(4), &ops, room);
         if ops.iter().all(|o| o.1 < 256) { history(&mut cx, "small_u8", 0, 0, &ops, false); }
         for variant in 0..5 { history(&mut cx, "easy", variant, rng.below(4), &ops, room && (variant + i) % 5 == 2 && ops.len() <= 120); }
